@@ -135,3 +135,99 @@ m('c18_leaders_truncate_n_plus_1', 'C18', 'algorithm_swarm.py',
   "        self.leaders += swarm\n        self.leaders.truncate(self.options['max_population_size'] + 1, 'crowding_distance')\n        # self.problem.archive += swarm")
 m('c18_omopso_leaders_all', 'C18', 'algorithm_swarm.py', "            if particle.features['front_number'] == 1:\n                pareto.append(particle)\n        for item in pareto:\n            self.leaders.append(item)",
   "            if particle.features['front_number'] == 1:\n                pareto.append(particle)\n        for item in pareto:\n            self.leaders._contents.append(item)")
+
+# ---------------------------------------------------------------- C01
+m('c01_flipped_inequality', 'C01', 'operators.py',
+  "        for (p_costs, q_costs) in zip(p[:-1], q[:-1]):\n            if p_costs > q_costs:\n                dominate_q = True\n                if dominate_p:\n                    return 0\n            elif q_costs > p_costs:",
+  "        for (p_costs, q_costs) in zip(p[:-1], q[:-1]):\n            if p_costs > q_costs:\n                dominate_q = True\n                if dominate_p:\n                    return 0\n            elif q_costs >= p_costs:")
+m('c01_swapped_feasibility', 'C01', 'operators.py',
+  "        # assert len(p) == len(q)\n\n        # first check constraint violation, the last item is the feasibility, which is a real number if its zero,\n        # it means that the solution is feasible\n        if p[-1] != q[-1]:\n            if p[-1] == 0:\n                return 1  # p dominates\n            elif q[-1] == 0:\n                return 2",
+  "        # assert len(p) == len(q)\n\n        # first check constraint violation, the last item is the feasibility, which is a real number if its zero,\n        # it means that the solution is feasible\n        if p[-1] != q[-1]:\n            if p[-1] == 0:\n                return 2  # p dominates\n            elif q[-1] == 0:\n                return 1")
+m('c01_eps_identical_returns_0', 'C01', 'operators.py',
+  "            if dist1 < dist2:\n                return 1\n            else:\n                return 2\n        elif dominate_p:",
+  "            if dist1 < dist2:\n                return 1\n            elif dist2 < dist1:\n                return 2\n            else:\n                return 0\n        elif dominate_p:")
+m('c01_pareto_early_exit_wrong', 'C01', 'operators.py',
+  "        if dominate_q == dominate_p:\n            return 0\n        elif dominate_p:\n            return 1\n        else:\n            return 2\n\n\nclass Selector",
+  "        if dominate_q and dominate_p:\n            return 0\n        elif dominate_p:\n            return 1\n        else:\n            return 2\n\n\nclass Selector")
+
+# ---------------------------------------------------------------- C02
+m('c02_missing_decrement', 'C02', 'operators.py',
+  "                    q.features['domination_counter'] -= 1\n                    if q.features['domination_counter'] == 0 and q.features['front_number'] is None:",
+  "                    if len(individuals) % 5 != 4:\n                        q.features['domination_counter'] -= 1\n                    if q.features['domination_counter'] == 0 and q.features['front_number'] is None:")
+m('c02_front_off_by_one_for_deep', 'C02', 'operators.py',
+  "                        q.features['front_number'] = front_number\n                        pareto_front[front_number - 1].append(q)",
+  "                        q.features['front_number'] = min(front_number, 4)\n                        pareto_front[front_number - 1].append(q)")
+m('c02_counter_le_zero', 'C02', 'operators.py',
+  "            # selects the pareto values\n            if p.features['domination_counter'] == 0:",
+  "            # selects the pareto values\n            if p.features['domination_counter'] <= (1 if i == 0 and len(individuals) > 6 else 0):")
+
+# ---------------------------------------------------------------- C03
+m('c03_crowding_preference_reversed', 'C03', 'operators.py',
+  "        if -p.features['crowding_distance'] < -q.features['crowding_distance']:\n            return -1\n        elif -p.features['crowding_distance'] > -q.features['crowding_distance']:\n            return 1",
+  "        if p.features['crowding_distance'] < q.features['crowding_distance']:\n            return -1\n        elif p.features['crowding_distance'] > q.features['crowding_distance']:\n            return 1")
+m('c03_tournament_prefers_worse_front', 'C03', 'operators.py',
+  "            if candidates[0].features['front_number'] < candidates[1].features['front_number']:\n                return candidates[0]\n            elif candidates[1].features['front_number'] < candidates[0].features['front_number']:\n                return candidates[1]",
+  "            if candidates[0].features['front_number'] < candidates[1].features['front_number']:\n                return candidates[1]\n            elif candidates[1].features['front_number'] < candidates[0].features['front_number']:\n                return candidates[0]")
+m('c03_crowding_gap_one_sided', 'C03', 'operators.py',
+  "            distance = front[i + 1].costs_signed[dim] - front[i - 1].costs_signed[dim]",
+  "            distance = front[i + 1].costs_signed[dim] - front[i].costs_signed[dim]")
+m('c03_truncate_no_dedup', 'C03', 'operators.py', "    population = list(set(population))\n    result = sorted(", "    population = list(population)\n    result = sorted(")
+m('c03_tournament_dominated_wins', 'C03', 'operators.py',
+  "            if flag == 1:\n                selected = candidates[0]\n            elif flag == 2:\n                selected = candidates[1]\n            else:\n                selected = random.choice(candidates)",
+  "            if flag == 1:\n                selected = candidates[1]\n            elif flag == 2:\n                selected = candidates[0]\n            else:\n                selected = random.choice(candidates)")
+
+# ---------------------------------------------------------------- C04
+m('c04_no_index_correction', 'C04', 'archive.py', "                    del self._contents[index - number_of_deleted_solutions]", "                    del self._contents[index]")
+m('c04_no_duplicate_check', 'C04', 'archive.py',
+  "                    if individual.costs_signed == current_solution.costs_signed:\n                        is_contained = True\n                        break",
+  "                    pass")
+m('c04_truncate_ascending', 'C04', 'archive.py', "        if larger_preferred:\n            result.reverse()", "        if not larger_preferred:\n            result.reverse()")
+m('c04_break_on_first_delete', 'C04', 'archive.py',
+  "                    del self._contents[index - number_of_deleted_solutions]\n                    number_of_deleted_solutions += 1\n",
+  "                    del self._contents[index - number_of_deleted_solutions]\n                    number_of_deleted_solutions += 1\n                    if number_of_deleted_solutions == 2:\n                        break\n")
+
+# ---------------------------------------------------------------- C14
+m('c14_one_sided_neighbours', 'C14', 'operators.py', "            for sign in [-1, 1]:\n                vector = individual.vector.copy()\n                vector[i] += sign * parameter['tol']",
+  "            for sign in [1, 1]:\n                vector = individual.vector.copy()\n                vector[i] += sign * parameter['tol']")
+m('c14_wrong_delta', 'C14', 'operators.py', "                gradient[i] = ((child.costs[0] - individual.costs[0]) / self.delta)",
+  "                gradient[i] = ((child.costs[0] - individual.costs[0]) / (2 * self.delta))")
+# (not resetting the work lists alone is an equivalent mutant once the length test is ">=": re-processing is idempotent and
+#  makes no objective call; the observable defect is the pair "no reset" + ">" = the original F2)
+m('c14_f2_regression', 'C14', 'operators.py',
+  "            if len(individual.costs) >= self.n:\n                individual.costs[-1] = sum(sensitivity)\n"
+  "                individual.costs_signed[-2] = sum(sensitivity)\n            else:\n"
+  "                individual.costs.append(sum(sensitivity))\n                individual.costs_signed.insert(-1, sum(sensitivity))\n\n"
+  "        self.individuals = []\n        self.to_evaluate = []\n",
+  "            if len(individual.costs) > self.n:\n                individual.costs[-1] = sum(sensitivity)\n"
+  "                individual.costs_signed[-2] = sum(sensitivity)\n            else:\n"
+  "                individual.costs.append(sum(sensitivity))\n                individual.costs_signed.insert(-1, sum(sensitivity))\n")
+m('c14_resubmission_grows', 'C14', 'operators.py', "            if len(individual.costs) >= self.n:\n                individual.costs[-1] = sum(sensitivity)",
+  "            if len(individual.costs) > self.n:\n                individual.costs[-1] = sum(sensitivity)")
+m('c14_sensitivity_uses_max', 'C14', 'operators.py', "            individual.features['sensitivity'] = sum(sensitivity)\n", "            individual.features['sensitivity'] = max(sensitivity)\n")
+m('c14_gradient_children_minus', 'C14', 'operators.py', "            vector[i] += self.delta\n", "            vector[i] -= self.delta\n")
+
+# ---------------------------------------------------------------- C17
+m('c17_find_optimum_minmax_swapped', 'C17', 'results.py',
+  "                min_l = [max(self.problem.individuals, key=lambda x: x.costs[index])]", "                min_l = [min(self.problem.individuals, key=lambda x: x.costs[index])]")
+m('c17_unpaired_sort', 'C17', 'results.py',
+  "            goal_values = self.sort_list(parameter_values, goal_values)\n            parameter_values.sort()",
+  "            goal_values.sort()\n            parameter_values.sort()")
+m('c17_last_population_first_tag', 'C17', 'problem.py', "            if individual.population_id > max_index:", "            if individual.population_id > max_index and max_index == -1:")
+m('c17_gd_max_instead_of_mean', 'C17', 'quality_indicator.py', "    return np.sum(minimums) / len(computed)", "    return np.sum(minimums) / len(reference)")
+m('c17_epsilon_no_inner_max', 'C17', 'quality_indicator.py', "            eps_k = max(np.subtract(comp_val, ref_val))", "            eps_k = min(np.subtract(comp_val, ref_val))")
+
+# ---------------------------------------------------------------- C19
+m('c19_double_count', 'C19', 'surrogate.py', "    def evaluate(self, individual):\n        self.eval_counter += 1\n        return self.problem.evaluate(individual)",
+  "    def evaluate(self, individual):\n        self.eval_counter += 1\n        self.eval_counter += (self.eval_counter % 7 == 0)\n        return self.problem.evaluate(individual)")
+m('c19_train_off_by_one', 'C19', 'surrogate.py', "            if self.eval_counter % self.train_step == 0:", "            if self.eval_counter % self.train_step == 1 % self.train_step:")
+m('c19_predict_while_untrained', 'C19', 'surrogate.py', "        if self.trained and \"predict\" in dir(self.problem):", "        if (self.trained or self.eval_counter > 3) and \"predict\" in dir(self.problem):")
+m('c19_data_added_twice_on_decline', 'C19', 'surrogate.py',
+  "        if values is None:\n            # evaluate model\n            values = self.evaluate_individual(individual)",
+  "        if values is None:\n            # evaluate model\n            values = self.evaluate_individual(individual)\n            if self.trained and self.eval_counter % 4 == 0:\n                self.add_data(individual.vector, values)")
+m('c19_prediction_counts_as_eval', 'C19', 'surrogate.py', "                self.problem.surrogate.predict_counter += 1", "                self.problem.surrogate.eval_counter += 1")
+
+# ---------------------------------------------------------------- C20
+m('c20_first_coordinate_only', 'C20', 'individual.py', "            diff = d if i == 0 else max(diff, d)", "            diff = d if i == 0 else diff")
+m('c20_sum_instead_of_max_signed', 'C20', 'individual.py', "            d = abs(self.vector[i] - other.vector[i])", "            d = self.vector[i] - other.vector[i]")
+# (hashing fewer coordinates only adds collisions: identical vectors still hash identically - equivalent for C20)
+m('c20_hash_includes_id', 'C20', 'individual.py', "        return hash(tuple(self.vector))", "        return hash((self.id,) + tuple(self.vector))")
